@@ -5,6 +5,7 @@ from ..engine import Relation
 
 REQ = lpcommon.REQ + ['Opts.SolverOpts', 'Corr.C16Corr']
 ORDER = ['maxsize', 'minsize', 'gen', 'gre', 'mincost', 'minsqcost', 'lmb', 'lsb', 'mincostlsb']
+SHORT = {v: k for k, v in lpcommon.LONG.items()}
 ENUM = {'MAXSIZE': 'MaxSize', 'MINSIZE': 'MinSize', 'GENEROUS': 'Generous', 'GREEDY': 'Greedy', 'MINCOST': 'MinCost',
         'MINSQCOST': 'MinSqCost', 'LOADMAXBAL': 'LoadMaxBal', 'LOADSUMBAL': 'LoadSumBal', 'MINCOSTLSB': 'MinCostLsb'}
 
@@ -33,7 +34,7 @@ def gen_ns(rng, valid_bias=0.5):
 
 
 def argv_from_ns(ns, twopl, stab, rng, na=2, extra=()):
-    flags = [['-' + k] + [str(v) for v in vals] for k, vals in ns.items()]
+    flags = [[lpcommon.LONG['-' + k] if rng.random() < 0.25 else '-' + k] + [str(v) for v in vals] for k, vals in ns.items()]
     if twopl:
         flags.append(['-twopl'])
     if stab:
@@ -256,7 +257,7 @@ class Info(lpcommon.LPRelation):
         argv = inp['argv']
         i = 0
         while i < len(argv):
-            a = argv[i]
+            a = SHORT.get(argv[i], argv[i])          # the long spellings name the same options
             if a.startswith('-') and a[1:] in ORDER:
                 j = i + 1
                 vals = []
